@@ -42,7 +42,7 @@ def handleRun (j : Json) : Except String String := do
   let lkm := isKernelModule etype sections
   let specLkmFlag := specIsKernelModule etype sections
   let nMarkers := (if sections.contains ".modinfo" then 1 else 0) + (if sections.contains ".gnu.linkonce.this_module" then 1 else 0)
-  let elfTag := if etype != "rel" then "" else if nMarkers == 1 then " elf-one-marker" else if nMarkers == 0 then " elf-rel-no-marker" else " elf-kernel-module"
+  let elfTag := if etype != "rel" then (if nMarkers == 2 then " elf-nonrel-both-markers" else if nMarkers == 1 then " elf-nonrel-one-marker" else "") else if nMarkers == 1 then " elf-one-marker" else if nMarkers == 0 then " elf-rel-no-marker" else " elf-kernel-module"
   let partialArg : Option String := match optF j "partial" with
     | some (.str s) => some s
     | _ => none
